@@ -10,6 +10,16 @@ sys.path.insert(0, HERE)
 CHECKS = {}   # filled by vf/props modules that exist: id -> (category, text, note, technique, design_ref)
 
 TABLE = {
+    "C11": ("exploration",
+            "The real reduce_to_section / get_line_range / inspect are driven on generated files (every marker style of both ISAs, decoy look-alikes, empty bodies) and judged against the generator's own body lines; metamorphic runs of the real inspect() on marked file / --lines / body-only file / body with inserted comment, label, directive and blank lines compare the analysis captured by wrappers on Frontend.full_analysis and KernelDG.get_critical_path (per-instruction pressure, latency, flags, CP, LCD sets, summary).",
+            "Trusted: the file generator's bookkeeping of body lines; variants are aligned by instruction order.",
+            "runtime monitoring: generated inputs with known selection + metamorphic equality of captured analyses",
+            "C11"),
+    "C13": ("exploration",
+            "The text report printed by the real inspect() and the dict returned by Frontend.full_analysis_dict (captured by a wrapper; --yaml-out file re-loaded in a sample; true CLI subprocesses in separate shards) are compared cell by cell by an independent report parser built from each report's own header line: pressure / CP / LCD cells, summary row, LCD list, X marks and warning count with and without --ignore-unknown, architecture and large-kernel warnings.",
+            "Trusted: vf/report_parse.py (validated on every report: structural surprises become layout/ violations, not guesses).",
+            "runtime monitoring: two observed outputs of one execution compared by an independent parser",
+            "C13"),
     "C09": ("exploration",
             "The real ParserX86ATT.parse_line / parse_file are run on text rendered with random layout from random instruction ASTs and mixed files; the result is compared field by field with the AST the text was rendered from (line number, verbatim text, classification, mnemonic, every operand field).",
             "Trusted: the AST generators and renderers in vf/asmgen.py; declared don't-care classes (displacement-only operands first, upper-case 0X) are listed in the evidence.",
